@@ -72,6 +72,10 @@ def check_tables(ctx, lane, scenes, egos, div, index):
         if rg["kind"] == "xy" and (isinstance(rg["max_x"], list) or isinstance(rg["max_y"], list)):
             ctx.skip("c19_per_label_range")  # the analyzer's area grid is defined for scalar bounds only
             return
+        tl = [l.value for l in lane.config.target_labels]
+        if len(set(tl)) != len(tl):
+            ctx.skip("c19_duplicate_target_labels")  # the analyzer indexes its summary tables by label
+            return
         if not scenes:
             ctx.skip("c19_nothing_to_analyze")
             return
